@@ -1,0 +1,64 @@
+//go:build verif
+// +build verif
+
+package verifhook
+
+import (
+	"runtime"
+	"sync/atomic"
+	"time"
+)
+
+// Actions of a point.
+const (
+	ActNone  = 0
+	ActYield = 1 // runtime.Gosched()
+	ActSleep = 2 // time.Sleep(arg microseconds)
+)
+
+type point struct {
+	count  uint64
+	action uint32
+	arg    uint32
+	every  uint32
+	_      [44]byte // one cache line per point: the counters must not create sharing of their own
+}
+
+var points [NumPoints]point
+
+// Point counts the arrival and performs the configured action on every
+// `every`-th arrival.
+func Point(id int) {
+	p := &points[id]
+	n := atomic.AddUint64(&p.count, 1)
+	a := atomic.LoadUint32(&p.action)
+	if a == ActNone {
+		return
+	}
+	if e := uint64(atomic.LoadUint32(&p.every)); e > 1 && n%e != 0 {
+		return
+	}
+	if a == ActYield {
+		runtime.Gosched()
+	} else {
+		time.Sleep(time.Duration(atomic.LoadUint32(&p.arg)) * time.Microsecond)
+	}
+}
+
+// Set configures a point.
+func Set(id int, action, argMicros, every uint32) {
+	p := &points[id]
+	atomic.StoreUint32(&p.arg, argMicros)
+	atomic.StoreUint32(&p.every, every)
+	atomic.StoreUint32(&p.action, action)
+}
+
+// Reset switches every action off (counters are kept).
+func Reset() {
+	for i := range points {
+		atomic.StoreUint32(&points[i].action, ActNone)
+	}
+}
+
+// Count returns the number of arrivals at a point so far.
+func Count(id int) uint64 { return atomic.LoadUint64(&points[id].count) }
